@@ -18,6 +18,7 @@ func propC01(c *Ctx) propInfo {
 	c.bocDescriptors()
 	c.storedHashCount()
 	c.parserOwnsBytes()
+	c.levelMaskAlgebra() // hashes stored by other serialisers are indexed by the same mask functions
 	c.bocDepthLimitsAgree()
 	if f := c.mustFn("E1.P6-forward-refs", "boc", "DeserializeBoc"); f != nil {
 		env := &e1env{cfg: e1cfg{maxDepth: 0, exc: excC07}, ci: &callIndex{}, reach: map[*ssa.Function]bool{}}
